@@ -9,7 +9,12 @@
    only uses what they guarantee (any `data` shards determine the codeword; a changed leaf, root,
    index or proof does not verify; a signature verifies only for the signed triple and key).  The
    model decides WHICH subsets must succeed and WHICH units must be rejected, and where the code,
-   as written, does something else (the Fix* switches, FALSE = the code as it is). *)
+   as written, does something else (the Fix* switches, FALSE = the code as it is).
+
+   This module is about ONE message: one validator, one reconstruction.  WHICH validator a unit
+   reaches - the processor's messageKey, the life cycle of the per-message subprocessors, the
+   finalized cache, several instances in flight that share parts of (committee, publisher, root,
+   nonce) - is Processor.tla, which EXTENDS this module. *)
 EXTENDS Integers, FiniteSets, Sequences, TLC
 
 CONSTANTS Configs,    \* set of <<data, parity>>
